@@ -4,8 +4,10 @@
    task index) and `Uft.Replay` (fstack_account_time, fstack_update_stack_count,
    fstack_entry/exit/update, print_graph_rstack with leaf folding, fork depth
    inheritance, print_remaining_stack; `--column-view` and the `-f` time fields as
-   passes over the printed lines).  `checks/c06.py` ties the model to the code. -/
-import Uft.Lemmas.ReplayTree
+   passes over the printed lines; `replayX`: the same loop with the replay-time fix-ups of
+   fstack_entry/fstack_update -- exec, setjmp/longjmp, fork family, classified by symbol
+   name -- and the repair flags `Fixes`).  `checks/c06.py` ties the model to the code. -/
+import Uft.Lemmas.ReplaySpec
 namespace Uft.C06
 open Uft.Merge Uft.Replay
 
@@ -246,5 +248,247 @@ theorem c06_column_view_is_presentation (off : Nat) (evs : List Ev) :
     ∃ col : Nat → Nat, columnize off [] evs = evs.map (fun e => e.shift (col e.task * off)) := by
   obtain ⟨col, h, _⟩ := columnize_spec off evs []
   exact ⟨col, h⟩
+
+/-! ## the replay-time fix-ups: which functions -/
+
+/-- the model's `strstr` is the substring relation -/
+theorem c06_strstr_is_infix (hay needle : List Char) : strstr hay needle = true ↔ needle <:+: hay :=
+  strstr_iff_infix hay needle
+
+/-- Every name is classified: a function is an exec / setjmp / longjmp / fork fix-up exactly when its
+    whole name is one of the names of the family (`specClass` lists them: 7 + 4 + 3 + 4 names, among them
+    `__longjmp_chk`, `__sigsetjmp`, `_setjmp`, `vfork`, `daemon`, `posix.fork`), whatever it contains:
+    the table look-up (whole-name `strcmp`) followed by fstack_entry's strncmp/strstr cascade computes
+    that classification for every string. -/
+theorem c06_fixup_classification_total (name : String) : classifyName name = specClass name :=
+  classifyName_eq_spec name
+
+/-- names that merely contain or resemble a fix-up name are ordinary functions -/
+theorem c06_lookalikes_are_plain :
+    ∀ n ∈ ["my_longjmp_helper", "setjmp_wrapper", "do_fork", "forkpty", "exec", "execute", "daemonize", "_longjmp",
+           "longjmp_chk", "posix_fork", "vforked", "xsetjmp", "fexecve"], classifyName n = Fix.none := by decide
+
+example : classifyName "__longjmp_chk" = .longjmp ∧ classifyName "__sigsetjmp" = .setjmp ∧
+    classifyName "execvpe" = .exec ∧ classifyName "vfork" = .fork ∧ classifyName "posix.fork" = .fork := by decide
+
+/-! ## the replay-time fix-ups: the main loop -/
+
+/-- On a stream without exec-family and longjmp-family calls, the code without the repairs behaves as
+    `replay` (the model all theorems above are about): same lines, same task states.  setjmp- and
+    fork-family calls may occur (a setjmp only arms the jump point). -/
+theorem c06_fixup_free_is_plain (cls : Nat → Fix) (b : Bool) (w : W) (m : List (Nat × Rec)) (h : JumpFree cls m) :
+    (replayX {} cls b w m).1.g = (replay b (isForkOf cls) w.g m).1 ∧
+    (replayX {} cls b w m).2 = (replay b (isForkOf cls) w.g m).2 :=
+  replayX_plain cls b m.length m (Nat.le_refl _) w h
+
+example : JumpFree (fun a => if a = 11 then .setjmp else if a = 12 then .longjmp else .none)
+    [(0, ⟨10, false, 0, 1⟩), (0, ⟨20, false, 1, 11⟩), (0, ⟨25, true, 1, 11⟩)] := by
+  intro p hp; simp at hp; rcases hp with h | h | h <;> subst h <;> simp [jumps]
+
+/-- Leaf folding is presentation with the fix-ups too, whatever the repairs: unfolding the default
+    output gives the `--no-merge` output and both runs end in the same state.  (An exec/longjmp entry is
+    never folded.) -/
+theorem c06_foldingX_is_presentation (fx : Fixes) (cls : Nat → Fix) (w : W) (m : List (Nat × Rec)) (h : PairsOK m) :
+    unfold (replayX fx cls true w m).2 = (replayX fx cls false w m).2 ∧
+    (replayX fx cls true w m).1 = (replayX fx cls false w m).1 := by
+  have := foldX_eq_nomerge fx cls m.length m (Nat.le_refl _) w h
+  exact ⟨this.2, this.1⟩
+
+theorem c06_foldingX_is_presentation_merged (fx : Fixes) (cls : Nat → Fix) (w : W) (ts : List (List Rec))
+    (h : ∀ t ∈ ts, TaskOK t) :
+    unfold (replayX fx cls true w (merge ts)).2 = (replayX fx cls false w (merge ts)).2 ∧
+    (replayX fx cls true w (merge ts)).1 = (replayX fx cls false w (merge ts)).1 := by
+  apply c06_foldingX_is_presentation
+  apply pairsOK_mergeFuel
+  intro j
+  by_cases hj : j < ts.length
+  · exact h _ (nth_mem hj)
+  · rw [nth_of_length_le (Nat.le_of_not_lt hj)]; simp [TaskOK]
+
+/-! ## coherent streams are shown as recorded (any tasks, forks, exec, setjmp/longjmp)
+
+`cohB fx cls st S m`: from the reader's state `S` on, the merged stream `m` is coherent --
+the depth field of every record is the number of calls open in its task (an ENTRY pushes, an EXIT pops,
+an exec-family ENTRY is followed by a depth-0 ENTRY or, repaired code only, by its own EXIT; after a
+longjmp-family ENTRY the stack is the one of the setjmp-family call that was entered last, by any task:
+"last-armed target"); a task's first record is an ENTRY at depth 0, or, for a forked child, the EXIT/ENTRY
+that continues the stack of the parent's fork() -- with the code as it is only if that fork() is the
+parent's latest one so far (finding C06-FORK-LATEST), with `forkLatest` any of them. -/
+
+/-- `--no-merge` output of a coherent stream, all tasks at once: one line per record, in stream order, at
+    indent = the record's depth; an `}` line shows the function and the duration `exit.time - entry.time`
+    of the innermost open call of its task (`specLines`); replay's final stacks are the reader's. -/
+theorem c06_coherent_stream_shown_as_recorded (fx : Fixes) (cls : Nat → Fix) (parents : List (Option Nat))
+    (forked : List Bool) (m : List (Nat × Rec))
+    (hc : cohB fx cls (static0 parents forked) spec0 m = true) :
+    (replayX fx cls false (w0 parents forked) m).2 = specLines cls spec0 m ∧
+    Rel (static0 parents forked) (replayX fx cls false (w0 parents forked) m).1 (specEnd cls spec0 m) :=
+  replayX_refines_spec fx cls _ m _ _ (rel0 parents forked) hc
+
+/-- the same from any state of replay that agrees with the reader's -/
+theorem c06_coherent_suffix_shown_as_recorded (fx : Fixes) (cls : Nat → Fix) (st : Static) (w : W) (S : Spec)
+    (m : List (Nat × Rec)) (hr : Rel st w S) (hc : cohB fx cls st S m = true) :
+    (replayX fx cls false w m).2 = specLines cls S m ∧ Rel st (replayX fx cls false w m).1 (specEnd cls S m) :=
+  replayX_refines_spec fx cls st m w S hr hc
+
+/-- the default (folding) output of a coherent stream, after unfolding -/
+theorem c06_coherent_stream_default (fx : Fixes) (cls : Nat → Fix) (parents : List (Option Nat))
+    (forked : List Bool) (m : List (Nat × Rec)) (hp : PairsOK m)
+    (hc : cohB fx cls (static0 parents forked) spec0 m = true) :
+    unfold (replayX fx cls true (w0 parents forked) m).2 = specLines cls spec0 m := by
+  rw [(c06_foldingX_is_presentation fx cls _ m hp).1]
+  exact (c06_coherent_stream_shown_as_recorded fx cls parents forked m hc).1
+
+/-- indentation = the depth recorded in the stream, for every line of every task -/
+theorem c06_indent_is_recorded_depth (fx : Fixes) (cls : Nat → Fix) (parents : List (Option Nat))
+    (forked : List Bool) (m : List (Nat × Rec))
+    (hc : cohB fx cls (static0 parents forked) spec0 m = true) :
+    (replayX fx cls false (w0 parents forked) m).2.map (fun e => (e.kind, e.task, e.indent, e.fn, e.time)) =
+      m.map (fun p => ((if p.2.exit then Kind.exit else Kind.entry), p.1, p.2.depth, p.2.addr, p.2.time)) := by
+  rw [(c06_coherent_stream_shown_as_recorded fx cls parents forked m hc).1]
+  exact specLines_shape cls m spec0
+
+/-- the calls replay lists as still open at the end are the reader's open calls of the task -/
+theorem c06_open_calls_are_recorded (fx : Fixes) (cls : Nat → Fix) (parents : List (Option Nat))
+    (forked : List Bool) (m : List (Nat × Rec)) (i : Nat) (T : STask)
+    (hc : cohB fx cls (static0 parents forked) spec0 m = true) (hT : (specEnd cls spec0 m).task i = some T)
+    (hp : T.pend = none) :
+    openAddrs ((replayX fx cls false (w0 parents forked) m).1.g i) = T.stk.map (·.addr) := by
+  have := openAddrs_of_rel (c06_coherent_stream_shown_as_recorded fx cls parents forked m hc).2 i
+  rw [this, hT]
+  simp [hp]
+
+-- non-vacuity: main{ setjmp(); foo{ bar{ longjmp() ~> second return of setjmp } } baz() }, a second task interleaved
+example : cohB {} (fun a => if a = 11 then .setjmp else if a = 12 then .longjmp else .none) (static0 [none, none] [false, false])
+    spec0 (merge [[⟨10, false, 0, 1⟩, ⟨20, false, 1, 11⟩, ⟨25, true, 1, 11⟩, ⟨30, false, 1, 2⟩, ⟨40, false, 2, 3⟩,
+      ⟨50, false, 3, 12⟩, ⟨60, true, 1, 11⟩, ⟨70, false, 1, 4⟩, ⟨80, true, 1, 4⟩, ⟨90, true, 0, 1⟩],
+      [⟨15, false, 0, 8⟩, ⟨55, false, 1, 9⟩, ⟨65, true, 1, 9⟩]]) = true := by decide
+
+example : ((replayX {} (fun a => if a = 11 then .setjmp else if a = 12 then .longjmp else .none) false (w0 [none] [false])
+    (merge [[⟨10, false, 0, 1⟩, ⟨20, false, 1, 11⟩, ⟨25, true, 1, 11⟩, ⟨30, false, 1, 2⟩, ⟨40, false, 2, 3⟩,
+      ⟨50, false, 3, 12⟩, ⟨60, true, 1, 11⟩, ⟨70, false, 1, 4⟩, ⟨80, true, 1, 4⟩, ⟨90, true, 0, 1⟩]])).2).map
+      (fun e => (e.kind, e.fn, e.indent, e.dur)) =
+    [(.entry, 1, 0, 0), (.entry, 11, 1, 0), (.exit, 11, 1, 5), (.entry, 2, 1, 0), (.entry, 3, 2, 0), (.entry, 12, 3, 0),
+     (.exit, 11, 1, 30), (.entry, 4, 1, 0), (.exit, 4, 1, 10), (.exit, 1, 0, 80)] := by decide
+
+/-- After a longjmp the next call is shown at the depth of the setjmp call it returns to: in every coherent
+    stream -- setjmp-family ENTRY `sj` of task `i`, then no other setjmp-family ENTRY of any task (`mid`), a
+    longjmp-family ENTRY `lj` of task `i`, then the next two records of task `i`, an EXIT `x` (the second
+    return of setjmp) and an ENTRY `e` -- both are printed at indent `sj.depth` (and every line of the stream
+    at its record's depth). -/
+theorem c06_longjmp_restores_indent (fx : Fixes) (cls : Nat → Fix) (parents : List (Option Nat)) (forked : List Bool)
+    (i : Nat) (sj lj x e : Rec) (pre mid mid2 mid3 rest : List (Nat × Rec))
+    (hsj : sj.exit = false ∧ cls sj.addr = .setjmp) (hlj : lj.exit = false ∧ cls lj.addr = .longjmp)
+    (hx : x.exit = true) (he : e.exit = false)
+    (hmid : ∀ p ∈ mid, p.2.exit = false → cls p.2.addr ≠ .setjmp)
+    (hmid2 : ∀ p ∈ mid2, p.1 ≠ i) (hmid3 : ∀ p ∈ mid3, p.1 ≠ i)
+    (hc : cohB fx cls (static0 parents forked) spec0
+      (pre ++ (i, sj) :: (mid ++ (i, lj) :: (mid2 ++ (i, x) :: (mid3 ++ (i, e) :: rest)))) = true) :
+    x.depth = sj.depth ∧ e.depth = sj.depth ∧
+    (replayX fx cls false (w0 parents forked)
+        (pre ++ (i, sj) :: (mid ++ (i, lj) :: (mid2 ++ (i, x) :: (mid3 ++ (i, e) :: rest))))).2.map (·.indent) =
+      (pre ++ (i, sj) :: (mid ++ (i, lj) :: (mid2 ++ (i, x) :: (mid3 ++ (i, e) :: rest)))).map (·.2.depth) := by
+  have hd : x.depth = sj.depth ∧ e.depth = sj.depth := by
+    rw [cohB_append, Bool.and_eq_true] at hc
+    exact coh_longjmp_depths fx cls _ _ i sj lj x e mid mid2 mid3 rest hsj hlj hx he hmid hmid2 hmid3 hc.2
+  refine ⟨hd.1, hd.2, ?_⟩
+  have := c06_indent_is_recorded_depth fx cls parents forked _ hc
+  have h2 := congrArg (List.map (fun q : Kind × Nat × Nat × Nat × Nat => q.2.2.1)) this
+  simpa [List.map_map, Function.comp_def] using h2
+
+-- non-vacuity of the stream shape: the stream of the example above, cut at the setjmp / longjmp / second return / next call
+example : (⟨60, true, 1, 11⟩ : Rec).depth = (⟨20, false, 1, 11⟩ : Rec).depth ∧ (⟨70, false, 1, 4⟩ : Rec).depth = (⟨20, false, 1, 11⟩ : Rec).depth :=
+  let cls : Nat → Fix := fun a => if a = 11 then .setjmp else if a = 12 then .longjmp else .none
+  let h := c06_longjmp_restores_indent {} cls [none] [false] 0 ⟨20, false, 1, 11⟩ ⟨50, false, 3, 12⟩ ⟨60, true, 1, 11⟩ ⟨70, false, 1, 4⟩
+    [(0, ⟨10, false, 0, 1⟩)] [(0, ⟨25, true, 1, 11⟩), (0, ⟨30, false, 1, 2⟩), (0, ⟨40, false, 2, 3⟩)] [] []
+    [(0, ⟨80, true, 1, 4⟩), (0, ⟨90, true, 0, 1⟩)] (by decide) (by decide) rfl rfl (by decide) (by decide) (by decide) (by decide)
+  ⟨h.1, h.2.1⟩
+
+/-- After a successful exec the new program image starts at depth 0: the task's next ENTRY after an
+    exec-family ENTRY carries depth 0 in every coherent stream, and is shown there. -/
+theorem c06_exec_resets_depth (fx : Fixes) (cls : Nat → Fix) (parents : List (Option Nat)) (forked : List Bool)
+    (i : Nat) (ex e : Rec) (pre mid rest : List (Nat × Rec))
+    (hex : ex.exit = false ∧ cls ex.addr = .exec) (he : e.exit = false) (hmid : ∀ p ∈ mid, p.1 ≠ i)
+    (hc : cohB fx cls (static0 parents forked) spec0 (pre ++ (i, ex) :: (mid ++ (i, e) :: rest)) = true) :
+    e.depth = 0 ∧
+    (replayX fx cls false (w0 parents forked) (pre ++ (i, ex) :: (mid ++ (i, e) :: rest))).2.map (·.indent) =
+      (pre ++ (i, ex) :: (mid ++ (i, e) :: rest)).map (·.2.depth) := by
+  have hd : e.depth = 0 := by
+    rw [cohB_append, Bool.and_eq_true] at hc
+    exact coh_exec_depth fx cls _ _ i ex e mid rest hex he hmid hc.2
+  refine ⟨hd, ?_⟩
+  have := c06_indent_is_recorded_depth fx cls parents forked _ hc
+  have h2 := congrArg (List.map (fun q : Kind × Nat × Nat × Nat × Nat => q.2.2.1)) this
+  simpa [List.map_map, Function.comp_def] using h2
+
+-- non-vacuity: main{ run{ execv() ~> new image: main{ } } }
+example : cohB {} (fun a => if a = 7 then .exec else .none) (static0 [none] [false]) spec0
+    (merge [[⟨10, false, 0, 1⟩, ⟨20, false, 1, 2⟩, ⟨30, false, 2, 7⟩, ⟨40, false, 0, 1⟩, ⟨50, true, 0, 1⟩]]) = true := by decide
+
+/-! ## findings: the code as it is, and the repaired code -/
+
+/-- C06-FORK-LATEST, the code as it is (`forkLatest := false`): the parent (task 0) calls fork() at depth 2
+    inside `a`, returns, and calls fork() again at depth 1 before the first child (task 1) has its first
+    record: the child's lines come out at indents 1 1 1 0 0 although its records carry the depths 2 2 2 1 0
+    (it continues the parent's stack main > a > fork).  Shape: the parent's latest fork() so far is not the one
+    the child returns from, i.e. the stream is not coherent for `forkLatest := false`. -/
+theorem c06_prefix_fork_latest_witness :
+    let cls : Nat → Fix := fun a => if a = 99 then .fork else .none
+    let ts : List (List Rec) :=
+      [[⟨10, false, 0, 1⟩, ⟨20, false, 1, 2⟩, ⟨30, false, 2, 99⟩, ⟨40, true, 2, 99⟩, ⟨50, true, 1, 2⟩,
+        ⟨60, false, 1, 99⟩, ⟨90, true, 1, 99⟩, ⟨100, true, 0, 1⟩],
+       [⟨70, true, 2, 99⟩, ⟨75, false, 2, 5⟩, ⟨80, true, 2, 5⟩, ⟨85, true, 1, 2⟩, ⟨95, true, 0, 1⟩]]
+    (linesOf 1 (replayX {} cls false (w0 [none, some 0] [false, true]) (merge ts)).2).map (·.indent) = [1, 1, 1, 0, 0] ∧
+    (ts.getD 1 []).map (·.depth) = [2, 2, 2, 1, 0] ∧
+    cohB {} cls (static0 [none, some 0] [false, true]) spec0 (merge ts) = false ∧
+    (linesOf 1 (replayX { forkLatest := true } cls false (w0 [none, some 0] [false, true]) (merge ts)).2).map (·.indent) =
+      [2, 2, 2, 1, 0] ∧
+    cohB { forkLatest := true } cls (static0 [none, some 0] [false, true]) spec0 (merge ts) = true := by
+  decide
+
+/-- The repaired code: a forked child may continue ANY earlier fork() of its parent -- the start condition
+    of a child whose parent has forked holds whatever the parent's latest fork() was; so
+    `c06_coherent_stream_shown_as_recorded` / `c06_indent_is_recorded_depth` with `forkLatest := true` show
+    every such child at the depths its records carry ("a forked child continues at its parent's depth"). -/
+theorem c06_fork_child_continues_any_fork (fx : Fixes) (hfx : fx.forkLatest = true) (st : Static) (S : Spec)
+    (i : Nat) (r : Rec) (hp : S.forkOf (st.par i) ≠ 0) : startOK fx st S i r = true := by
+  unfold startOK
+  cases S.task i with
+  | some _ => rfl
+  | none => simp [hp, hfx]
+
+/-- without the repair the child must return from the parent's latest fork() -/
+theorem c06_fork_child_latest_only (st : Static) (S : Spec) (i : Nat) (r : Rec) (hT : S.task i = none)
+    (hp : S.forkOf (st.par i) ≠ 0) : startOK {} st S i r = true ↔ S.forkOf (st.par i) = firstCount r := by
+  simp [startOK, hT, hp]
+
+/-- C06-EXEC-FAILED, the code as it is: main{ run{ execv() fails and returns; leaf() } }: the `}` of execv
+    and everything after it is printed at indent 0 (records: 2 2 2 1 0) and the durations pair with the
+    wrong slots (the `}` of execv shows main's start time 10).  The repaired code (`execFail := true`) shows
+    the stream as recorded; it is coherent only for the repaired code. -/
+theorem c06_prefix_exec_failed_witness :
+    let cls : Nat → Fix := fun a => if a = 7 then .exec else .none
+    let ts : List (List Rec) :=
+      [[⟨10, false, 0, 1⟩, ⟨20, false, 1, 2⟩, ⟨30, false, 2, 7⟩, ⟨40, true, 2, 7⟩, ⟨50, false, 2, 5⟩, ⟨60, true, 2, 5⟩,
+        ⟨70, true, 1, 2⟩, ⟨80, true, 0, 1⟩]]
+    (replayX {} cls false (w0 [none] [false]) (merge ts)).2.map (fun e => (e.indent, e.dur)) =
+      [(0, 0), (1, 0), (2, 0), (0, 10), (0, 0), (0, 10), (0, 10), (0, 10)] ∧
+    cohB {} cls (static0 [none] [false]) spec0 (merge ts) = false ∧
+    (replayX { execFail := true } cls false (w0 [none] [false]) (merge ts)).2.map (fun e => (e.indent, e.dur)) =
+      [(0, 0), (1, 0), (2, 0), (2, 10), (2, 0), (2, 10), (1, 50), (0, 70)] ∧
+    cohB { execFail := true } cls (static0 [none] [false]) spec0 (merge ts) = true := by
+  decide
+
+/-- C06-TID-ORPHAN with the repair: the forked child replayed alone (`--tid <child>`) is coherent and
+    hence shown at the depths of its records (compare `c06_tid_orphan_child_witness`). -/
+theorem c06_tid_orphan_repaired_witness :
+    let cls : Nat → Fix := fun a => if a = 99 then .fork else .none
+    let ts : List (List Rec) := [[⟨10, false, 0, 1⟩, ⟨20, false, 1, 99⟩, ⟨40, true, 1, 99⟩, ⟨50, true, 0, 1⟩],
+                                  [⟨30, true, 1, 99⟩, ⟨45, true, 0, 1⟩]]
+    (replayX { orphan := true } cls false (w0 [none, some 0] [false, true]) (merge (selectTasks (fun i => i == 1) ts))).2.map
+      (·.indent) = [1, 0] ∧
+    cohB { orphan := true } cls (static0 [none, some 0] [false, true]) spec0 (merge (selectTasks (fun i => i == 1) ts)) = true ∧
+    cohB {} cls (static0 [none, some 0] [false, true]) spec0 (merge (selectTasks (fun i => i == 1) ts)) = false := by
+  decide
 
 end Uft.C06
